@@ -375,16 +375,24 @@ class CryptographyEngine(api.CryptographicEngine):
                 hashing_algorithm=hashing_algorithm
             )
         else:
-            return self._encrypt_symmetric(
-                encryption_algorithm,
-                encryption_key,
-                plain_text,
-                cipher_mode=cipher_mode,
-                padding_method=padding_method,
-                iv_nonce=iv_nonce,
-                auth_additional_data=auth_additional_data,
-                auth_tag_length=auth_tag_length
-            )
+            try:
+                return self._encrypt_symmetric(
+                    encryption_algorithm,
+                    encryption_key,
+                    plain_text,
+                    cipher_mode=cipher_mode,
+                    padding_method=padding_method,
+                    iv_nonce=iv_nonce,
+                    auth_additional_data=auth_additional_data,
+                    auth_tag_length=auth_tag_length
+                )
+            except (ValueError, errors.UnsupportedAlgorithm) as e:
+                # Raised by the cryptography library for unusable parameters
+                # (e.g., a wrong IV/nonce size or tag length).
+                raise exceptions.CryptographicFailure(
+                    "The data could not be encrypted with the specified "
+                    "parameters: {0}".format(e)
+                )
 
     def _encrypt_symmetric(
             self,
@@ -499,7 +507,7 @@ class CryptographyEngine(api.CryptographicEngine):
                 mode = mode()
 
         # Pad the plain text if needed (separate methods for testing purposes)
-        if cipher_mode in [
+        if mode is not None and cipher_mode in [
                 enums.BlockCipherMode.CBC,
                 enums.BlockCipherMode.ECB
         ]:
@@ -731,16 +739,28 @@ class CryptographyEngine(api.CryptographicEngine):
                 hashing_algorithm=hashing_algorithm
             )
         else:
-            return self._decrypt_symmetric(
-                decryption_algorithm,
-                decryption_key,
-                cipher_text,
-                cipher_mode=cipher_mode,
-                padding_method=padding_method,
-                iv_nonce=iv_nonce,
-                auth_additional_data=auth_additional_data,
-                auth_tag=auth_tag
-            )
+            try:
+                return self._decrypt_symmetric(
+                    decryption_algorithm,
+                    decryption_key,
+                    cipher_text,
+                    cipher_mode=cipher_mode,
+                    padding_method=padding_method,
+                    iv_nonce=iv_nonce,
+                    auth_additional_data=auth_additional_data,
+                    auth_tag=auth_tag
+                )
+            except (
+                ValueError,
+                errors.InvalidTag,
+                errors.UnsupportedAlgorithm
+            ) as e:
+                # Raised by the cryptography library for unusable parameters,
+                # corrupted cipher text/padding or a failed tag verification.
+                raise exceptions.CryptographicFailure(
+                    "The data could not be decrypted with the specified "
+                    "parameters: {0}".format(e)
+                )
 
     def _decrypt_symmetric(
             self,
@@ -857,7 +877,7 @@ class CryptographyEngine(api.CryptographicEngine):
 
         # Unpad the plain text if needed (separate methods for testing
         # purposes)
-        if cipher_mode in [
+        if mode is not None and cipher_mode in [
                 enums.BlockCipherMode.CBC,
                 enums.BlockCipherMode.ECB
         ]:
